@@ -120,6 +120,9 @@ func (*c14Prop) Plans(tier string) []Plan {
 var c14Kinds = []string{"json", "json", "arith", "arith", "pb", "pair", "tokens", "tokens", "grammar", "grammar"}
 
 func genGraphSpec(r *Rand) GraphSpec {
+	if r.Chance(1, 40) {
+		return GraphSpec{Kind: "manyopt"}
+	}
 	s := GraphSpec{Kind: c14Kinds[r.Intn(len(c14Kinds))], Churn: r.Intn(3)}
 	if r.Chance(1, 10) {
 		s.Churn = r.Range(40, 600)
@@ -505,8 +508,37 @@ func strictRoot(name string) bool {
 
 func (*c14Prop) Run(cc Case) Verdict { return c14Run(cc.(*c14Case), true) }
 
+// c14TinyBudget: cases with a graph that does not terminate on the unchanged tree
+// ("manyopt") get step budgets small enough that the runaway recursion stays shallow.
+const c14TinyBudget = 40000
+
+var c14SoloCap int64 = 600000000
+
+func c14Unbounded(c *c14Case) bool {
+	for i := range c.Graphs {
+		if c.Graphs[i].Kind == "manyopt" {
+			return true
+		}
+	}
+	for i := range c.Tasks {
+		if c.Tasks[i].Own != nil && c.Tasks[i].Own.Kind == "manyopt" {
+			return true
+		}
+	}
+	return false
+}
+
 func c14Run(c *c14Case, probeSequential bool) Verdict {
 	v := Verdict{Probes: map[string]int64{}, Faults: map[string]int64{}}
+	c14SoloCap = 600000000
+	if c14Unbounded(c) {
+		c14SoloCap = c14TinyBudget
+		c.Warm = nil
+		if c.Sched != nil && (c.Sched.StepCap == 0 || c.Sched.StepCap > c14TinyBudget) {
+			c.Sched.StepCap = c14TinyBudget
+		}
+		v.Probes["cases_with_a_nullable_repetition_operand"]++
+	}
 	sim.SetMapSeed(c.MapSeed, c.MapIdentity)
 	if !c.MapIdentity {
 		v.Faults["map_order_stream"] = 1
@@ -859,7 +891,7 @@ func soloObserveRaw(t *c14Task, p parsley.Parser) (obs string) {
 // to completion in the concurrent phase).
 func soloObserve(t *c14Task, p parsley.Parser) string {
 	var obs string
-	info := runTasks(1, &SchedSpec{HasExpl: true, StepCap: 600000000}, func(int64) { obs = soloObserveRaw(t, p) })
+	info := runTasks(1, &SchedSpec{HasExpl: true, StepCap: c14SoloCap}, func(int64) { obs = soloObserveRaw(t, p) })
 	if info.OverBudget || info.Deadlock {
 		return soloOverBudget
 	}
